@@ -48,6 +48,11 @@ type proposal struct {
 	Delay  int   `json:"handler_yields"`
 	N      int   `json:"number"`
 	Final  bool  `json:"final_flag,omitempty"` // sequential mode only; later proposals on a finalized channel are skipped
+	// GivenUp: before this proposal the proposer calls Update with an already cancelled context
+	// (nothing may happen); GivenUpInHandler: the peer does so on the same channel while its
+	// handler is deliberating on this proposal.
+	GivenUp          bool `json:"preceded_by_update_call_with_cancelled_context,omitempty"`
+	GivenUpInHandler bool `json:"peer_calls_update_with_cancelled_context_while_deliberating,omitempty"`
 }
 
 type program struct {
@@ -122,6 +127,7 @@ func genProgram(rng *rand.Rand) program {
 			pr.Ch = 0
 		}
 		pr.N = i + 1
+		pr.GivenUp, pr.GivenUpInHandler = rng.Intn(10) == 0, rng.Intn(10) == 0
 		if p.Mode == "sequential" && rng.Intn(7) == 0 {
 			pr.Final = true
 			if rng.Intn(2) == 0 {
@@ -225,8 +231,25 @@ func one(s sink.Sink, rng *rand.Rand, sample bool) {
 	// handler decisions: matched to proposals by (channel, version) is impossible before the
 	// fact, so decisions are drawn from the proposal that is currently in flight on that channel.
 	type decision struct {
-		accept bool
-		delay  int
+		accept  bool
+		delay   int
+		givenUp bool
+	}
+	var chans [][2]*client.Channel
+	// givenUp: Update with a cancelled context; it cannot get the machine mutex and must not
+	// touch the channel
+	givenUp := func(ch *client.Channel) {
+		ctx, cancel := context.WithCancel(context.Background())
+		cancel()
+		entered := false
+		err := ch.Update(ctx, func(*channel.State) { entered = true })
+		s.Count("update_calls_with_cancelled_context", 1)
+		if entered || err == nil {
+			s.Count("update_calls_with_cancelled_context_that_entered_the_protocol", 1)
+			mu.Lock()
+			timedOut = true
+			mu.Unlock()
+		}
 	}
 	var dmu sync.Mutex
 	pending := map[string][]decision{} // owner(receiver)|channel -> FIFO of decisions
@@ -244,12 +267,19 @@ func one(s sink.Sink, rng *rand.Rand, sample bool) {
 				for i := 0; i < d.delay; i++ {
 					runtime.Gosched()
 				}
+				if d.givenUp {
+					for _, c := range chans {
+						if c[oi] != nil && c[oi].ID() == cur.ID {
+							givenUp(c[oi])
+						}
+					}
+				}
 			}
 		})
 	}
 
 	// open the channels
-	chans := make([][2]*client.Channel, prog.Channels)
+	chans = make([][2]*client.Channel, prog.Channels)
 	for c := 0; c < prog.Channels; c++ {
 		bals := make([][]int64, prog.Assets)
 		for a := range bals {
@@ -287,8 +317,11 @@ func one(s sink.Sink, rng *rand.Rand, sample bool) {
 		}
 		peerKey := fmt.Sprintf("%d|%x", 1-pr.Who, ch.ID())
 		dmu.Lock()
-		pending[peerKey] = append(pending[peerKey], decision{pr.Accept, pr.Delay})
+		pending[peerKey] = append(pending[peerKey], decision{pr.Accept, pr.Delay, pr.GivenUpInHandler})
 		dmu.Unlock()
+		if pr.GivenUp {
+			givenUp(ch)
+		}
 		ctx, cancel := context.WithTimeout(context.Background(), 20*time.Second)
 		if prog.Mode == "both-sides" {
 			cancel()
